@@ -17,6 +17,7 @@ arrays).
 from __future__ import annotations
 
 import collections.abc
+import copy
 import typing
 
 import numpy
@@ -1163,7 +1164,9 @@ class VectorNumpy2D(VectorNumpy, Planar, Vector2D, FloatArray):  # type: ignore[
             array = _array_from_columns(args[0])
         else:
             array = numpy.array(*args, **kwargs)
-        return array.view(cls)
+        # momentum classes rename the fields of their dtype in place:
+        # never do that on a dtype object the caller passed in
+        return array.view(copy.copy(array.dtype)).view(cls)
 
     def __array_finalize__(self, obj: typing.Any) -> None:
         if obj is None:
@@ -1410,7 +1413,9 @@ class VectorNumpy3D(VectorNumpy, Spatial, Vector3D, FloatArray):  # type: ignore
             array = _array_from_columns(args[0])
         else:
             array = numpy.array(*args, **kwargs)
-        return array.view(cls)
+        # momentum classes rename the fields of their dtype in place:
+        # never do that on a dtype object the caller passed in
+        return array.view(copy.copy(array.dtype)).view(cls)
 
     def __array_finalize__(self, obj: typing.Any) -> None:
         if obj is None:
@@ -1730,7 +1735,9 @@ class VectorNumpy4D(VectorNumpy, Lorentz, Vector4D, FloatArray):  # type: ignore
             array = _array_from_columns(args[0])
         else:
             array = numpy.array(*args, **kwargs)
-        return array.view(cls)
+        # momentum classes rename the fields of their dtype in place:
+        # never do that on a dtype object the caller passed in
+        return array.view(copy.copy(array.dtype)).view(cls)
 
     def __array_finalize__(self, obj: typing.Any) -> None:
         if obj is None:
